@@ -38,5 +38,10 @@ IsRx(st) == st.act.a = "rx"
 \* monitors see a message delivered in several network reads as "rx" steps followed by a feed of the message
 NormAct(a) == IF a.a = "frag" THEN (IF a.i = a.n THEN [a |-> "feed", c |-> a.c, ms |-> <<a.m>>] ELSE [a |-> "rx", c |-> a.c])
               ELSE IF a.a = "garbage" THEN [a |-> "rx", c |-> a.c] ELSE a
-Norm(st) == [act |-> NormAct(st.act), out |-> st.out, snap |-> st.snap]
+\* identities are compared case-insensitively: monitors see the configured spelling of a peer's name (MCfg.canon: other
+\* spellings the environment uses |-> configured name), in the messages fed and in the messages dispatched / delivered
+CanonH(h) == IF "canon" \in DOMAIN MCfg /\ h \in DOMAIN MCfg.canon THEN MCfg.canon[h] ELSE h
+CanonAct(a) == IF a.a = "feed" THEN [a EXCEPT !.ms = [i \in 1..Len(@) |-> [@[i] EXCEPT !.oh = CanonH(@)]]] ELSE a
+CanonOut(out) == [i \in 1..Len(out) |-> IF out[i].ev \in {"dispatch", "app_req"} THEN [out[i] EXCEPT !.m.oh = CanonH(@)] ELSE out[i]]
+Norm(st) == [act |-> CanonAct(NormAct(st.act)), out |-> CanonOut(st.out), snap |-> st.snap]
 =============================================================================
